@@ -7,8 +7,18 @@ Open Scope Z_scope.
 
 (* ---- OOM score adjustment <-> memory request estimate ---- *)
 
-(* MemReqToOomAdj, with the int64 wrap of 1000*memRequest written out *)
-Definition mem_req_to_oom (cap r : Z) : Z := 1000 - Z.quot (wrap64 (1000 * r)) cap.
+(* math/bits.Mul64 and Div64 on values of [0, 2^64): 128-bit product as (hi, lo), and the quotient of
+   a 128-bit dividend by y (Div64 panics unless hi < y; the code tests that first) *)
+Definition mul64 (a b : Z) : Z * Z := ((a * b) / 2^64, (a * b) mod 2^64).
+Definition div64 (hi lo y : Z) : Z := (hi * 2^64 + lo) / y.
+
+(* MemReqToOomAdj: the product 1000*memRequest is formed in 128 bits; the old int64 expression (with
+   its wrap written out) remains for negative arguments and for quotients that do not fit *)
+Definition mem_req_to_oom_wrapping (cap r : Z) : Z := 1000 - Z.quot (wrap64 (1000 * r)) cap.
+Definition mem_req_to_oom (cap r : Z) : Z :=
+  if (r <? 0) || (cap <=? 0) then mem_req_to_oom_wrapping cap r
+  else let '(hi, lo) := mul64 r 1000 in
+       if cap <=? hi then mem_req_to_oom_wrapping cap r else 1000 - div64 hi lo cap.
 
 (* no-wrap version used by the theorems (equal to the above below 2^63/1000) *)
 Definition adj_of (cap r : Z) : Z := 1000 - (1000 * r) / cap.
